@@ -113,6 +113,26 @@ def check(sid, props=None):
     (t / "meta.json").write_text(json.dumps(meta, indent=1))
 
 
+def readme():
+    """write seeded/README.md: which check catches which independently written change"""
+    lines = ["# Independent property-breaking changes\n",
+             "Written by fresh sub-agents that were given only the text of one property and a scratch git worktree of the",
+             "repository (nothing from /verif). Each was kept only after `tools/run_seeded.py confirm <id>` showed, in a scratch",
+             "worktree: demo passes on the clean tree; with the patch the repository's suite still passes and the demo fails.",
+             "`tools/run_seeded.py check <id> [props]` applies the patch to a scratch worktree (never to /repo) and runs the quick",
+             "checks against it (`GSCRIB_REPO=<worktree> run.py check <prop> --no-proof`).\n",
+             "| id | breaks | needs, in order to manifest | confirmed | verdict of the checks |", "|---|---|---|---|---|"]
+    for t in sorted(SEEDED.glob("*/meta.json")):
+        m = json.loads(t.read_text())
+        v = "; ".join(f"{k}: {x['verdict']}" for k, x in m.get("checks", {}).items())
+        lines.append(f"| {m['id']} | {m['breaks_property']} | {m.get('needs_to_manifest','')} | {m.get('confirmed')} | {v} |")
+    lines += ["", "`caught` = exit 1 with `VIOLATION property=… replay=…` and a failing input; `caught(no-failing-input-found)` = the",
+              "correspondence broke but the oracle found no input on which the property itself fails.",
+              "History: the first run of this table missed C03-B, C04-A, C07-B, C10-A, C11-A, C11-B, C12-A, C16-B, C17-A and C19-B;",
+              "the generators/oracles were strengthened (see DESIGN.md section 10) until every change is caught."]
+    (SEEDED / "README.md").write_text("\n".join(lines) + "\n")
+
+
 def table():
     rows = []
     for t in sorted(SEEDED.glob("*/meta.json")):
@@ -138,3 +158,5 @@ if __name__ == "__main__":
         table()
     elif a[0] == "table":
         table()
+    elif a[0] == "readme":
+        readme()
